@@ -584,8 +584,13 @@ func (g *Gen) kill(t *gobj) {
 			break
 		}
 	}
-	for _, k := range t.kids {
-		g.kill(k)
+	names := make([]string, 0, len(t.kids))
+	for n := range t.kids {
+		names = append(names, n)
+	}
+	sort.Strings(names) // deterministic order: everything random must come from the one PRNG
+	for _, n := range names {
+		g.kill(t.kids[n])
 	}
 }
 
